@@ -89,6 +89,23 @@ func (fx *Fx) evalCallMulti(st *State, call *ast.CallExpr) []callResult {
 		}
 		return fx.inlineDecl(st, fd, recv, args)
 	}
+	// close(c) of an already closed channel panics: where the function says maypanic, that exit is explored
+	if fx.rootSpec != nil && fx.rootSpec.MayPanic {
+		if id, ok := ast.Unparen(call.Fun).(*ast.Ident); ok && id.Name == "close" && len(call.Args) == 1 {
+			if _, isB := fx.pkg.info.Uses[id].(*types.Builtin); isB {
+				c := fx.eval(st, call.Args[0], false)
+				cell := fx.chanCell(st, c.X)
+				pst := st.clone()
+				pst.assume(app("ch_closed", cell))
+				pv := fx.d.freshConst("panicval", SRef)
+				pst.assume(not(app("=", pv, "nil")))
+				pst.panicVal = pv
+				st.assume(not(app("ch_closed", cell)))
+				fx.evalCall(st, call, false)
+				return []callResult{{st: st, kind: kNormal}, {st: pst, kind: kPanic}}
+			}
+		}
+	}
 	// an abstract callee may panic where the function under verification says so (maypanic): explore that exit too
 	if fx.rootSpec != nil && fx.rootSpec.MayPanic && fx.classifyCall(st, call) == callAbstract {
 		pst := st.clone()
